@@ -458,7 +458,7 @@ func genC12Case(t *rapid.T) *C12Case {
 				s.Unscoped = genOverride(t, ty, mg)
 				for _, f := range ty.Fields {
 					if _, ok := s.Unscoped[f.Name]; ok && rapid.Bool().Draw(t, "fnInOv") {
-						name := rapid.SampledFrom([]string{"phone", "cfn1", "shadowed", "email"}).Draw(t, "fnName")
+						name := rapid.SampledFrom([]string{"phone", "cfn1", "shadowed", "email", "reenter", "reenter"}).Draw(t, "fnName")
 						s.Unscoped[f.Name] += "," + name
 						s.CallFns = append(s.CallFns, name)
 						break
@@ -483,6 +483,13 @@ func genC12Case(t *rapid.T) *C12Case {
 			s.pickEntry(rapid.IntRange(0, 7).Draw(t, "entry"))
 			bases = append(bases, base{call: &Call{S: s}, regen: func() (desc.V, bool) { return desc.V{}, false }})
 		default:
+			if rapid.IntRange(0, 3).Draw(t, "reentrant") == 2 {
+				// a type with either / botheq groups in its tags, and behind the group members a field whose per-call
+				// function validates ANOTHER (empty) object of the same type while the outer validation is under way:
+				// the outer call's groups are judged by the outer object's members
+				bases = append(bases, base{call: &Call{S: genReenterCase(t)}, regen: func() (desc.V, bool) { return desc.V{}, false }})
+				break
+			}
 			bases = append(bases, base{call: &Call{V: genScalarCall(t, mg)}, regen: func() (desc.V, bool) { return desc.V{}, false }})
 		}
 	}
@@ -509,6 +516,25 @@ func genC12Case(t *rapid.T) *C12Case {
 	if ev.Thorough() && rapid.IntRange(0, 9).Draw(t, "longTail") == 0 {
 		c.Filler = 10000
 	}
+	return c
+}
+
+// genReenterCase: see the "reentrant" base of genC12Case.
+func genReenterCase(t *rapid.T) *StructCase {
+	str := func(l string) desc.V {
+		return desc.Str(rapid.SampledFrom([]string{"", "", "a", "b"}).Draw(t, l))
+	}
+	num := func(l string) desc.V { return desc.V{I: int64(rapid.IntRange(0, 2).Draw(t, l))} }
+	ty := desc.T{K: "struct", Fields: []desc.F{
+		{Name: "G1", T: desc.Scalar("string"), Tags: map[string]string{"valid": "either=1"}},
+		{Name: "G2", T: desc.Scalar("string"), Tags: map[string]string{"valid": "either=1"}},
+		{Name: "N", T: desc.Scalar("int"), Tags: map[string]string{"valid": "botheq=2"}},
+		{Name: "M", T: desc.Scalar("int"), Tags: map[string]string{"valid": "botheq=2"}},
+		{Name: "Z", T: desc.Scalar("string")},
+	}}
+	c := &StructCase{Root: desc.Ptr(ty), Val: desc.V{E: []desc.V{{E: []desc.V{str("g1"), str("g2"), num("n"), num("m"), desc.Str("zz")}}}},
+		Unscoped: map[string]string{"Z": "reenter"}, CallFns: []string{"reenter"}}
+	c.Entry = rapid.SampledFrom([]string{"StructForFns", "VStruct"}).Draw(t, "reenterEntry")
 	return c
 }
 
